@@ -559,6 +559,8 @@ def verify_function(repo, registry, models_factory, c, base_axioms, options=None
             st.assume(as_z3(f))
             if _n.startswith('assumed:'):
                 st.assumptions_used.add(f'UNCHECKED PRECONDITION of {c.name.split(".")[-1]}: {_n[8:]}')
+            else:
+                st.assumptions_used.add(f'REQUIRES {c.name}: {_n}')
         # vacuity guard: the precondition must be satisfiable
         if not st.feasible():
             st.oblige_fail(f'{c.name}#precondition-satisfiable', 'precondition is contradictory')
